@@ -465,6 +465,15 @@ func (gen *Generator) convertTable(dir, filename string, checkProtoFileConflicts
 		} else if pass == secondPass {
 			log.Debugf("second pass: parse sheet schema from %s", debugSheetName)
 			if ws.Options.Mode == tableaupb.Mode_MODE_DEFAULT {
+				// keep sure each column name is unique, also for the columns which
+				// the field parser skips (confgen looks every column up by name).
+				for cursor := 0; cursor < len(tableHeader.nameRowData); cursor++ {
+					if nameCell := tableHeader.getNameCell(cursor); nameCell != "" {
+						if err := tableHeader.checkNameConflicts(nameCell, cursor); err != nil {
+							return wrapDebugErr(err, debugBookName, debugSheetName, tableHeader, cursor)
+						}
+					}
+				}
 				var parsed bool
 				for cursor := 0; cursor < len(tableHeader.nameRowData); cursor++ {
 					field := &internalpb.Field{}
